@@ -359,6 +359,8 @@ def run(ctx):
     interrupted(ctx)
     planlevel.plan_campaign(ctx, {"C07"}, n_quick=60, n_thorough=1000)
     cycles(ctx)
+    import translate_nxutil
+    translate_nxutil.check(ctx)      # networkx_util.py (Kahn, all_ancestors, predecessor_count, is_source_node) compiled from the source and linked to Base/Topo.v
     import topo_corr
     topo_corr.run_topo(ctx)         # real topological_sort / all_ancestors / predecessor_count vs Base/Topo.v
 
